@@ -17,7 +17,7 @@ from tartiflette import Directive, Scalar, create_engine
 ID = "C11"
 LEVEL = "exploration"
 WORKERS = {"quick": 8, "thorough": 16}
-CASES = {"quick": 2000, "thorough": 80000}
+CASES = {"quick": 1500, "thorough": 80000}
 BUDGET = {"quick": 50, "thorough": 560}
 RULE = (
     "case = generated schema model (every type kind, wrappers to depth 3, argument / input-field defaults of every value kind incl. "
